@@ -189,13 +189,18 @@ impl FeatureState for TravelLimitState {
             .filter_map(|(job_tw, job_loc)| {
                 let duration = self.transport.duration_approx(&actor.vehicle.profile, start_place.location, job_loc);
 
+                // NOTE: a job without time restriction has an unbounded time window, its end says nothing
+                // about a departure time
+                let is_bounded = job_tw.end < f64::MAX;
+
                 // consider multiple possible departure times
                 [
-                    job_tw.end - duration,                                      // latest possible
-                    job_tw.start - duration,                                    // earliest possible
-                    job_tw.start - duration + (job_tw.end - job_tw.start) / 2., // middle
+                    is_bounded.then(|| job_tw.end - duration), // latest possible
+                    Some(job_tw.start - duration),             // earliest possible
+                    is_bounded.then(|| job_tw.start - duration + (job_tw.end - job_tw.start) / 2.), // middle
                 ]
                 .into_iter()
+                .flatten()
                 // do not depart outside allowed time
                 .filter(|&departure_time| {
                     let start_latest = start_place.time.latest.unwrap_or(f64::MAX);
